@@ -351,6 +351,7 @@ type outcome struct {
 	cbReason   string
 	cbBytes    []byte
 	urlChanged string // non-empty: how Dialer.Upgrade modified the caller's *url.URL
+	cfgChanged string // non-empty: how the handshake modified the Dialer's configuration
 	// OnHeader callback observations
 	vetoAt       int
 	hdrCalls     []kv // arguments of every invocation (copied inside the callback)
@@ -508,6 +509,35 @@ func urlDiff(before url.URL, beforeUser *url.Userinfo, beforeStr string, u *url.
 // upgradeURL is upgradeSeeded on a *url.URL owned by the caller; it also
 // records whether the dialer modified that URL.
 func upgradeURL(c *dcfg, u *url.URL, respond func(key string) []byte, sizes []int, eofWithData, reseed bool) (o outcome) {
+	return upgradeDialer(c, nil, u, respond, sizes, eofWithData, reseed)
+}
+
+// renderDialerConfig renders what a Dialer is configured to request:
+// subprotocols, extension offers with their parameters in order, Host and the
+// bytes of the extra headers.
+func renderDialerConfig(d *ws.Dialer) string {
+	var hdr bytes.Buffer
+	if d.Header != nil {
+		d.Header.WriteTo(&hdr)
+	}
+	return hx.JSON(map[string]interface{}{"protocols": d.Protocols, "extensions": respgen.FromOptions(d.Extensions), "host": d.Host, "header": hdr.String()})
+}
+
+// upgradeDialer is upgradeURL through a Dialer owned by the caller (dp; nil =
+// a fresh one built from c), used as callers do: by value, so several
+// handshakes share the Extensions / Protocols slices. It records whether the
+// handshake changed that configuration.
+func upgradeDialer(c *dcfg, dp *ws.Dialer, u *url.URL, respond func(key string) []byte, sizes []int, eofWithData, reseed bool) (o outcome) {
+	if dp == nil {
+		fresh := c.dialer()
+		dp = &fresh
+	}
+	cfgBefore := renderDialerConfig(dp)
+	defer func() {
+		if after := renderDialerConfig(dp); after != cfgBefore {
+			o.cfgChanged = fmt.Sprintf("%s, was %s", after, cfgBefore)
+		}
+	}()
 	before, beforeStr := *u, u.String()
 	var beforeUser *url.Userinfo
 	if u.User != nil {
@@ -521,7 +551,7 @@ func upgradeURL(c *dcfg, u *url.URL, respond func(key string) []byte, sizes []in
 		o.key, o.keyOK = respgen.KeyFromRequest(req)
 		return respond(o.key)
 	}
-	d := c.dialer()
+	d := *dp
 	if c.OnStatus {
 		o.statusHook(&d)
 	}
@@ -589,6 +619,9 @@ func judge(o *outcome, r *respgen.Response, cfg respgen.Config, cl respgen.Class
 	}
 	if o.urlChanged != "" {
 		return "Dialer.Upgrade modified the caller's *url.URL: " + o.urlChanged
+	}
+	if o.cfgChanged != "" {
+		return "the handshake modified the Dialer's configuration: " + o.cfgChanged
 	}
 	if msg := judgeStatusError(o); msg != "" {
 		return msg
@@ -919,6 +952,20 @@ func TestRequest(t *testing.T) {
 		valid := respgen.Valid()
 		var keys []string
 		shared, _ := url.ParseRequestURI(c.URL)
+		// One Dialer value for all dials of the case; the server accepts the
+		// offered extensions with parameters of its own, different from the offer.
+		one := c.dialer()
+		if len(c.Req.Extensions) > 0 {
+			var answer []respgen.Ext
+			seen := map[string]bool{}
+			for _, e := range c.Req.Extensions {
+				if !seen[e.Name] {
+					seen[e.Name] = true
+					answer = append(answer, respgen.Ext{Name: e.Name, Params: []respgen.Param{{Key: "server-chosen", Value: "10"}, {Key: "zz"}}})
+				}
+			}
+			valid.Lines = append(valid.Lines, respgen.Line{Name: "Sec-WebSocket-Extensions", Pre: " ", Value: respgen.FormatOptionList(answer, " ", false)})
+		}
 		for i := 0; i < 3; i++ {
 			// second dial of the same case: the global source moves on, no re-seeding
 			// All dials of the case share one *url.URL, as a caller's would; u
@@ -927,8 +974,12 @@ func TestRequest(t *testing.T) {
 			cc := c
 			if i == 2 {
 				cc.Host = ""
+				one.Host = ""
 			}
-			o := upgradeURL(&cc, shared, valid.Render, nil, false, i == 0)
+			o := upgradeDialer(&cc, &one, shared, valid.Render, nil, false, i == 0)
+			if o.cfgChanged != "" {
+				t.Fatalf("dial %d modified the Dialer's configuration: %s", i+1, o.cfgChanged)
+			}
 			if o.panicked != nil {
 				t.Fatalf("Dialer.Upgrade panicked: %v", o.panicked)
 			}
